@@ -675,9 +675,16 @@ class CSSStyleSheet(cssutils.stylesheets.StyleSheet):
             # variables?
 
         elif isinstance(rule, cssutils.css.CSSRuleList):
-            # insert all rules
-            for i, r in enumerate(rule):
-                self.insertRule(r, index + i)
+            # insert all rules, or none if one of them is refused
+            done = 0
+            try:
+                for i, r in enumerate(rule):
+                    self.insertRule(r, index + i)
+                    done += 1
+            except xml.dom.DOMException:
+                for _ in range(done):
+                    self.deleteRule(index)
+                raise
             return index
 
         if not rule.wellformed:
